@@ -123,6 +123,17 @@ CHECKS += [
          technique="lifted execution of the real ring classes on z3 integers (NIA identity proofs, unbounded); CrossHair for bounded number-theoretic parts"),
 ]
 
+CHECKS += [
+    dict(property_id="C03", category="other", engine=E1,
+         text="~550 (thorough ~4700) nested expression skeletons over adjoint / integer pow / ctrl (1-2 controls, mixed control values) / prod (incl. "
+              "interleaved operand groups) / sum / s_prod are built as real PennyLane operators with symbolic leaf parameters and symbolic complex "
+              "scalars; z3 proves for ALL values: qp.matrix == the same arithmetic on the leaf matrices (own embed/dagger/power/block-control/product/"
+              "sum oracle), relabelling wires leaves the matrix unchanged, product of decomposition() == matrix, and qp.simplify preserves the matrix "
+              "on every explored path (forking mode). Category 'other' only because one recorded known finding (F4) keeps discharged < obligations.",
+         note=PROOF_NOTE + " Unsupported and listed: negative powers through numpy.linalg.inv, simplifications calling round/% on symbols. Outside: fractional powers, qp.exp, change_op_basis, depth > 3.",
+         technique="symbolic execution of operator-arithmetic matrices/simplify on polynomial terms vs an independent matrix-arithmetic oracle; z3 QF_NRA"),
+]
+
 _NOT_BUILT = "claimed in DESIGN.md §4 but its solver-based check is not built yet in this tree"
 NOT_APPLICABLE_REASONS = {
     "C04": "equality/hash: Python hash() of concrete payloads and tolerance-based allclose relations; no exact relation a solver can decide",
